@@ -109,11 +109,13 @@ pub fn parse_swift_digits(input: &str, field_name: &str) -> Result<String, Parse
 /// Parse SWIFT character set (a-z, A-Z, 0-9, and special chars)
 ///
 /// SWIFT 'x' character set includes: a-z, A-Z, 0-9, and special characters:
-/// / - ? : ( ) . , ' + { } SPACE CR LF and other printable ASCII
+/// / - ? : ( ) . , ' + { } SPACE and other printable ASCII.
+/// CR and LF separate the lines of a multi-line field; they are not characters of a line, so
+/// callers validate line by line.
 pub fn parse_swift_chars(input: &str, field_name: &str) -> Result<String, ParseError> {
     // SWIFT x character set: alphanumeric + special characters
-    // Common special chars: / - ? : ( ) . , ' + { } SPACE CR LF % & * ; < = > @ [ ] _ $ ! " # |
-    const SWIFT_SPECIAL: &str = "/-?:().,'+{} \r\n%&*;<=>@[]_$!\"#|";
+    // Common special chars: / - ? : ( ) . , ' + { } SPACE % & * ; < = > @ [ ] _ $ ! " # |
+    const SWIFT_SPECIAL: &str = "/-?:().,'+{} %&*;<=>@[]_$!\"#|";
 
     if !input
         .chars()
